@@ -16,13 +16,13 @@ theorem run_append (s : State) (a b : List Op) : run s (a ++ b) = run (run s a) 
   unfold run; rw [List.foldl_append]
 
 /-- invariant and refinement along any history -/
-theorem run_refines {s : State} (hs : Inv s) (ops : List Op) (hok : ∀ op ∈ ops, OpOk op) :
+theorem run_refines {s : State} (hs : Inv s) (ops : List Op) :
     Inv (run s ops) ∧ abs (run s ops) = (abs s).run ops := by
   induction ops generalizing s with
   | nil => exact ⟨hs, rfl⟩
   | cons op ops ih =>
-    have h1 := inv_apply hs op (hok op (by simp))
-    have h2 := ih h1 (fun o ho => hok o (by simp [ho]))
+    have h1 := inv_apply hs op
+    have h2 := ih h1
     refine ⟨h2.1, ?_⟩
     rw [run_cons, h2.2, abs_apply hs]
     rfl
@@ -64,13 +64,12 @@ theorem memInv_run {s : State} (h : MemInv s) (ops : List Op) : MemInv (run s op
   | nil => exact h
   | cons op ops ih => exact ih (memInv_apply h op)
 
-theorem not_shadowed_of_mem {s : State} (h : MemInv s) (key : PKey) : shadowed s key = false := by
-  simp [shadowed, baseGet, h.2.1]
-
 theorem fuzzyClass_mem {s : State} (h : MemInv s) (q : Key) :
     fuzzyClass s q = (s.btree.any (fun e => e.1.1 != q && fuzzyMatch e.1.1 q) ||
       s.grave.any (fun g => g.1 != q && fuzzyMatch g.1 q)) := by
-  simp [fuzzyClass, h.2.1]
+  have hf : ∀ {α : Type} (l : List α), l.any (fun _ => false) = false := by
+    intro α l; induction l <;> simp_all
+  simp [fuzzyClass, h.2.1, hf]
 
 end TrieBuf
 
